@@ -198,5 +198,8 @@ class WeightingQuery(WrappingQuery):
 
     def matcher(self, searcher, context=None):
         # Replace the passed-in weighting with the one configured on this query
-        context.set(weighting=self.weighting)
+        # (set() returns a changed copy of the context)
+        if context is None:
+            context = searcher.context()
+        context = context.set(weighting=self.weighting)
         return self.child.matcher(searcher, context)
